@@ -1,6 +1,7 @@
 package main
 
 import (
+	"sort"
 	"encoding/json"
 	"fmt"
 	"os"
@@ -165,3 +166,5 @@ func loadCorpus[T any](prop string) []T {
 	}
 	return out
 }
+
+func sortStrings(xs []string) { sort.Strings(xs) }
